@@ -270,6 +270,7 @@ class Note:
 
     def __init__(self):
         self.s = None
+        self.on_note = None
 
     def __call__(self, text):
         s = self.s
@@ -277,6 +278,8 @@ class Note:
             t = s.by_ident.get(threading.get_ident())
             if t is not None:
                 s.events.append((t.name, 'note', text))
+                if self.on_note is not None:
+                    self.on_note(t.name, text)
 
 
 class DirectedScheduler(sched.Scheduler):
@@ -332,6 +335,57 @@ def policy_vote_during_copy(crole, n):
     return policy
 
 
+def staged_policy(stages):
+    """stages: list of (thread to prefer, predicate(thread, kind, label) that ends the stage, on_end or None);
+    after the last stage the seeded random choice takes over"""
+    st = dict(stage=0, i=0)
+
+    def policy(s):
+        evs = s.events
+        while st['i'] < len(evs) and st['stage'] < len(stages):
+            ev = evs[st['i']]
+            st['i'] += 1
+            th, pred, on_end = stages[st['stage']]
+            if pred(*ev):
+                st['stage'] += 1
+                if on_end is not None:
+                    on_end()
+        return stages[st['stage']][0] if st['stage'] < len(stages) else None
+    return policy
+
+
+def policy_fault_during_handover(crole, n, arm):
+    """directed: the packer reaches its n-th hand-over of the commit lock in copyRest; committer c1 begins
+    and votes (it owns the commit lock, in flight); the packer's next write to Data.fs.pack fails
+    (`arm()` plants the fault) and the pack raises; committer c2 tries to begin while c1 is still in
+    flight; then c1 finishes; the rest is random"""
+    cnt = dict(acq=False, rel=0)
+
+    def handed_over(th, kind, label):
+        if th == 'p' and kind == 'acquired' and label == crole:
+            cnt['acq'] = True
+        elif th == 'p' and kind == 'release' and label == crole and cnt['acq']:
+            cnt['rel'] += 1
+            return cnt['rel'] == n
+        return False
+    return staged_policy([
+        ('p', handed_over, None),
+        ('c1', lambda th, kind, label: th == 'c1' and kind == 'note' and label == 'status-write', arm),
+        ('p', lambda th, kind, label: th == 'p' and kind == 'note' and label.startswith('attempt-end'), None),
+        ('c2', lambda th, kind, label: th == 'c2' and label == crole and kind in ('block', 'release'), None),
+        ('c1', lambda th, kind, label: th == 'c1' and kind == 'release' and label == crole, None),
+    ])
+
+
+def policy_attempts_during_pack():
+    """directed: the packer runs until it has created Data.fs.pack (flag set, pack in progress) and is
+    paused there; thread q makes all its pack attempts; the rest is random"""
+    return staged_policy([
+        ('p', lambda th, kind, label: th == 'p' and kind == 'io' and label == 'create Data.fs.pack', None),
+        ('q', lambda th, kind, label: th == 'q' and kind == 'note' and label == 'attempts-done', None),
+    ])
+
+
 def hook_vfs(rec, note):
     """like sched.vfs_hook, plus a note before a committer's one-byte status write"""
     def on_event(ev):
@@ -359,24 +413,28 @@ def run_sched_case(P, tmp, schedule=None):
         returned = []          # (tid, who, writes) in return order
         T = [None]
 
-        def packer(name):
+        def packer(name, attempts=1):
             def f():
-                t = pack_time(P, info, clk)
-                if T[0] is None or P.get('ptime') == 'mid':
-                    T[0] = packtid(t)
-                else:
-                    T[0] = max(T[0], packtid(t))
-                note('pack-call')
-                try:
-                    db.pack(t)
-                    note('pack-ok')
-                    return 'ok'
-                except FileStorageError as e:
-                    note('pack-raised')
-                    return 'FileStorageError:%s' % e
-                except Exception as e:      # noqa: B902
-                    note('pack-raised')
-                    return 'raised:%s:%s' % (type(e).__name__, e)
+                outs = []
+                for a in range(attempts):
+                    t = pack_time(P, info, clk)
+                    if T[0] is None or P.get('ptime') == 'mid':
+                        T[0] = packtid(t)
+                    else:
+                        T[0] = max(T[0], packtid(t))
+                    note('attempt-start')
+                    try:
+                        db.pack(t)
+                        o = 'ok'
+                    except FileStorageError as e:
+                        o = 'FileStorageError:%s' % e
+                    except Exception as e:      # noqa: B902
+                        o = 'raised:%s:%s' % (type(e).__name__, e)
+                    note('attempt-end ' + ('refused' if o == 'FileStorageError:Already packing' else
+                                           'ok' if o == 'ok' else 'raised'))
+                    outs.append(o)
+                note('attempts-done')
+                return outs[0] if attempts == 1 else outs
             return f
 
         def committer(k):
@@ -483,8 +541,34 @@ def run_sched_case(P, tmp, schedule=None):
         init_tids = [t.tid for t in fs.iterator()]
         _READ_YIELD[0] = bool(P.get('read_yield'))
         policy = None
-        if P.get('directed') and P.get('post', 2) >= 1:
-            policy = policy_vote_during_copy(fs._commit_lock.role, P.get('post', 2))
+        crole = fs._commit_lock.role
+        armed = [False]
+        if P.get('directed') == 1 and P.get('post', 2) >= 1:
+            policy = policy_vote_during_copy(crole, P.get('post', 2))
+        elif P.get('directed') == 2 and P.get('post', 2) >= 1:
+            import errno
+            orig_before = rec.before
+
+            def before(ev):
+                # the planted fault: the packer's next raw write to Data.fs.pack fails with ENOSPC
+                if armed[0] and ev[0] == 'write' and ev[1] == 'Data.fs.pack':
+                    armed[0] = False
+                    rec.events.append(('fault', rec.nmut) + ev[:2])
+                    raise OSError(errno.ENOSPC, 'vfs injected fault (directed)')
+                return orig_before(ev)
+            rec.before = before
+            # planted when c1 is about to write its status byte (event-driven, so a replay from the
+            # decision list plants it at the same point)
+            once = []
+
+            def on_note(th, text):
+                if th == 'c1' and text == 'status-write' and not once:
+                    once.append(1)
+                    armed[0] = True
+            note.on_note = on_note
+            policy = policy_fault_during_handover(crole, P.get('post', 2), None)
+        elif P.get('directed') == 3:
+            policy = policy_attempts_during_pack()
         s = DirectedScheduler(seed=P['seed'], schedule=schedule, stickiness=P.get('stick', 0.5), policy=policy)
         note.s = s
         hook_vfs(rec, note)
@@ -494,7 +578,7 @@ def run_sched_case(P, tmp, schedule=None):
         if P.get('reads', 4):
             s.spawn('r', reader)
         if P.get('second'):
-            s.spawn('q', packer('q'))
+            s.spawn('q', packer('q', attempts=int(P['second'])))
         res = s.run(timeout=60)
         _READ_YIELD[0] = False
         rec.on_event = None
@@ -531,7 +615,24 @@ def verify_sched(obs, fs, db, path, P, tmp):
     if obs['thread_errors']:
         pr.append(('thread-error', str(obs['thread_errors'])))
     # -- exceptions: only the allowed ones
-    packs = [res.get('p')] + ([res.get('q')] if P.get('second') else [])
+    # -- the commit lock is exclusive: only its owner releases it, nobody else is admitted meanwhile
+    owner = None
+    crole = obs['roles']['commit']
+    for th, kind, label in obs['events']:
+        if label != crole:
+            continue
+        if kind == 'acquired':
+            if owner is not None and owner != th:
+                pr.append(('commit-lock-shared', 'thread %s was admitted to the commit lock while %s is between '
+                           'tpc_begin and tpc_finish' % (th, owner)))
+            owner = th
+        elif kind == 'release':
+            if owner != th:
+                pr.append(('commit-lock-released-by-non-owner', 'thread %s released the commit lock owned by %s'
+                           % (th, owner)))
+            owner = None
+    q = res.get('q') if P.get('second') else []
+    packs = [res.get('p')] + (q if isinstance(q, list) else [q])
     for x in packs:
         # sentence 3 of the property: a pack may fail, leaving the database usable and unchanged (checked
         # below like for every run).  A refusal needs a concurrent pack.
@@ -539,9 +640,31 @@ def verify_sched(obs, fs, db, path, P, tmp):
             pr.append(('pack-refused-without-concurrent-pack', str(packs)))
         elif x is None:
             pr.append(('pack-thread-died', str(packs)))
-    if P.get('second') and 'FileStorageError:Already packing' in packs and packs.count('ok') == 0 and \
-            all(str(x).startswith('FileStorageError') for x in packs):
-        pr.append(('both-packs-refused', str(packs)))
+    if P.get('second') and all(str(x).startswith('FileStorageError') for x in packs):
+        pr.append(('all-packs-refused', str(packs)))
+    # a pack attempt made entirely while another thread's pack is between creating Data.fs.pack and
+    # swapping it in (flag certainly set) must be refused — the first, the second and every later one
+    busy = {}                       # thread -> [start index, end index or None] of its current busy window
+    windows = []
+    attempt = {}
+    for i, (th, kind, label) in enumerate(obs['events']):
+        if th in ('p', 'q'):
+            if kind == 'io' and label == 'create Data.fs.pack':
+                busy[th] = [i, None]
+            elif th in busy and busy[th][1] is None and (
+                    (kind == 'io' and label == 'rename Data.fs.pack') or
+                    (kind == 'note' and label.startswith('attempt-end'))):
+                busy[th][1] = i
+                windows.append((th, busy[th][0], i))
+            if kind == 'note' and label == 'attempt-start':
+                attempt[th] = i
+            elif kind == 'note' and label.startswith('attempt-end') and th in attempt:
+                a0 = attempt.pop(th)
+                for oth, w in busy.items():
+                    if oth != th and w[0] < a0 and (w[1] is None or i < w[1]) and label != 'attempt-end refused':
+                        pr.append(('pack-admitted-during-pack',
+                                   'a pack attempt of thread %s made while thread %s was packing ended %r '
+                                   '(results %r)' % (th, oth, label, packs)))
     nok = {}
     for k in range(1, P.get('committers', 1) + 1):
         cr = res.get('c%d' % k) or dict(out=['missing'], own=(0, 0))
@@ -611,7 +734,8 @@ def verify_sched(obs, fs, db, path, P, tmp):
         pr.append(('index-inconsistent', e))
     # -- the packed file is equivalent to the unpacked one (Data.fs.old + later commits)
     old = path + '.old'
-    if P.get('keep_old', True) and 'ok' in packs and os.path.exists(old) and not P.get('second'):
+    if P.get('keep_old', True) and 'ok' in packs and os.path.exists(old) and not P.get('second') and \
+            all(x == 'ok' for x in packs):
         ref = os.path.join(tmp, 'ref')
         if os.path.exists(ref):
             shutil.rmtree(ref)
@@ -1156,6 +1280,14 @@ def gen_sched_params(rng, i):
     if i % 5 == 4:          # directed: a commit is voted while the packer copies, finished before it returns
         P.update(directed=1, ptime='mid', post=rng.choice([1, 2]), pad=rng.choice([3000, 9000, 9000]),
                  second=0)
+    elif i % 10 == 3:       # directed: the pack fails (ENOSPC on .pack) while it has handed the commit lock to
+        #                     a committer in flight; a second committer then wants to begin
+        P.update(directed=2, ptime='mid', post=rng.choice([1, 2, 3]), committers=2, second=0, undo=0,
+                 commits=rng.choice([2, 3]))
+    elif i % 10 == 8:       # directed: three further pack attempts while the first pack is in progress
+        P.update(directed=3, second=3)
+    elif P.get('second') and i % 2:
+        P['second'] = 3     # several attempts by the second packer thread, random schedule
     return P
 
 
@@ -1366,7 +1498,8 @@ def judge_sched(ck, small, proto_batch):
     ck.count('sched-returned-commits', small['returned'])
     for k, v in (small['results'] or {}).items():
         if k in ('p', 'q'):
-            ck.count('pack-outcome:%s' % str(v)[:40])
+            for x in (v if isinstance(v, list) else [v]):
+                ck.count('pack-outcome:%s' % str(x)[:40])
         elif k.startswith('c') and v:
             for o in v['out']:
                 ck.count('commit-outcome:%s' % o.split(':')[0])
